@@ -333,9 +333,22 @@ SCENARIOS = [
 ]
 
 
+TIER = "quick"
+
+# thorough tier: longer runs (31 and 63 paths), SE(3) over two iterations, a verbose second call
+THOROUGH_SCENARIOS = [
+    ("iter4/quiet", V3, E3, (), True, 4, False, False),
+    ("iter5/quiet", V3, E3, (1,), False, 5, False, False),
+    ("iter4/verbose", V3, E3, (), True, 4, True, False),
+    ("iter2/se3-mixed", ["PoseR3", "PoseSE3", "PoseR2", "PoseSE3"], [(1, 0), (3, 1), (2,), (0, 3)], (), True, 2, False, False),
+    ("iter3/then-second-call", V3, E3, (), True, 3, True, True),
+    ("iter2/landmark-listed-first-then-second-call", ["PoseR2", "PoseSE2", "PoseSE2"], [("L", (1, 0)), ("O", (1, 2)), ("L", (2, 0))], (), True, 2, False, True),
+]
+
+
 def tasks(prefix, rule, where):
     out = []
-    for sc_ in SCENARIOS:
+    for sc_ in SCENARIOS + (THOROUGH_SCENARIOS if TIER == "thorough" else []):
         name, vt, ed, fx, ffp, mi, vb, sc = sc_[:8]
         refix = sc_[8] if len(sc_) > 8 else None
         shared = sc_[9] if len(sc_) > 9 else None
